@@ -1448,3 +1448,71 @@ package gogu
 //@   ensures len(str) > 0 ==> len(result) >= 2 * len(token) + 1
 //@ loop 1
 //@   invariant 0 <= $pos && $pos <= len(str) && ($pos == 0 ==> builder(s) == "") && ($pos > 0 ==> len(builder(s)) >= 2 * len(token) + 1)
+
+// ---------------------------------------------------------------- C20: delay, debounce, throttle (safety clauses)
+
+//@ func gogu.Delay
+//@   property C20
+//@   ensures result != nil && fresh(result) && timeron(result) && timerfn(result) == fn && timerdue(result) >= old(now) + delay && timercount == old(timercount) + 1
+
+//@ guards gogu.debouncer.mu : timer
+
+//@ func (*gogu.debouncer).add
+//@   property C20
+//@   lock d.mu : none
+//@   ensures d.timer != nil && fresh(d.timer) && timeron(d.timer) && timerfn(d.timer) == f && timerdue(d.timer) >= old(now) + d.duration && timerdue(d.timer) <= now + d.duration
+//@   ensures old(d.timer) != nil ==> !timeron(old(d.timer))
+//@   ensures timercount == old(timercount) + 1
+//@   modifies d.timer
+
+//@ func (*gogu.debouncer).cancel
+//@   property C20
+//@   lock d.mu : none
+//@   ensures d.timer == nil && timercount == old(timercount)
+//@   ensures old(d.timer) != nil ==> !timeron(old(d.timer))
+//@   modifies d.timer
+
+//@ func gogu.NewDebounce
+//@   property C20
+//@   ensures timercount == old(timercount)
+
+//@ func gogu.NewDebounce$1
+//@   property C20
+//@   requires d != nil
+//@   modifies d.timer
+//@   ensures timercount == old(timercount) + 1
+
+//@ guards gogu.throttler.cond.L : last, waiting, stop
+//@ lockinv gogu.throttler : self.cond != nil && self.cond.L != nil && (self.waiting && !self.trailing ==> now - timens(self.last) > self.duration)
+
+//@ func gogu.NewThrottle
+//@   property C20
+//@   ensures result != nil && fresh(result) && result.cond != nil && result.cond.L != nil && !result.waiting && !result.stop && result.duration == wait && result.trailing == trailing
+
+//@ func (*gogu.throttler).Call
+//@   property C20
+//@   opt conc-only
+//@   requires t.cond != nil && t.cond.L != nil
+//@   ensures t.last == old(t.last) && t.stop == old(t.stop)
+//@   ensures t.waiting && !old(t.waiting) ==> !old(t.stop) && (now - timens(t.last) > t.duration || t.trailing)
+//@   ensures old(t.waiting) ==> t.waiting
+//@   ensures timercount <= old(timercount) + 1 && (timercount == old(timercount) + 1 ==> t.trailing)
+
+//@ func (*gogu.throttler).Next
+//@   property C20
+//@   opt conc-only
+//@   requires t.cond != nil && t.cond.L != nil
+//@   ensures result <==> !t.stop
+//@   ensures result ==> !t.waiting && timens(t.last) <= now
+//@   ghost prev int
+//@   ghost-at Now#1: prev = timens(t.last)
+//@   ensures result && !t.trailing ==> timens(t.last) - prev > t.duration
+//@   ensures result ==> timens(t.last) - prev > t.duration
+//@ loop 1
+//@   invariant t.cond != nil && t.cond.L != nil && (t.waiting && !t.trailing ==> now - timens(t.last) > t.duration)
+
+//@ func (*gogu.throttler).Cancel
+//@   property C20
+//@   opt conc-only
+//@   requires t.cond != nil && t.cond.L != nil
+//@   ensures t.stop && t.last == old(t.last) && t.waiting == old(t.waiting)
